@@ -39,7 +39,7 @@ class C06(common.SpecCheck):
                    "known finding OUTONLY-INVERTED is left out by the generators (witness only)"]
 
     def gen(self, rng, k):
-        return classes.gen_mixed(rng, [("S", 4), ("O", 4), ("Os", 1), ("A", 2), ("A+", 2), ("K", 3), ("T", 5), ("TK", 2), ("P", 1), ("M", 4), ("Mp", 1)])
+        return classes.gen_mixed(rng, [("S", 4), ("O", 4), ("Os", 1), ("A", 2), ("A+", 2), ("K", 3), ("T", 5), ("TK", 2), ("P", 1), ("M", 4), ("Mp", 2)])
 
     def nontrivial(self, spec, meta):
         return True
